@@ -16,6 +16,8 @@ def run(ctx):
     from . import guardvocab
     guardvocab.G0(ctx, effects={'leak-scan', 'ref-dec', 'ref-inc'})
     guardvocab.G1(ctx, effects={'leak-scan', 'ref-dec', 'ref-inc'})
+    guardvocab.G2(ctx, scopes=('rt::arc::', 'rt::alloc::', '<rt::alloc::'))
+    guardvocab.G3(ctx, scopes=('rt::arc::', 'rt::alloc::', '<rt::alloc::'))
     leaks.K1(ctx)
     leaks.K2(ctx)
     leaks.K2b(ctx)
